@@ -3,48 +3,57 @@
 From GC Require Import Base Model_Expr Model_BoolSimp Proofs_Expr Proofs_BoolSimp Proofs_Rewrites.
 Open Scope string_scope.
 
-(* The full statement  well_typed e -> eval env (simplify_bool e) = eval env e  is FALSE for the
-   unchanged code: two independent counterexamples (both replayed on compiled Go by the oracle). *)
-Theorem C10_bool_simplify_incdec_float_refuted :
-  exists en e, env_ok en /\ typeof e = Some TBool /\
-    print_expr e = "x+1 > y" /\ print_expr (simplify_bool e) = "x >= y" /\
-    eval en e = Some (RVal (VBool true), []) /\ eval en (simplify_bool e) = Some (RVal (VBool false), []).
-Proof. exact remove_incdec_float_refuted. Qed.
-Print Assumptions C10_bool_simplify_incdec_float_refuted.
-
-Theorem C10_bool_simplify_octal_bound_refuted :
-  exists en e, env_ok en /\ typeof e = Some TBool /\
-    print_expr e = "x > 8 && x < 010" /\ print_expr (simplify_bool e) = "x == 9" /\
-    eval en e = Some (RVal (VBool false), []) /\ eval en (simplify_bool e) = Some (RVal (VBool true), []).
-Proof. exact fold_ranges_octal_refuted. Qed.
-Print Assumptions C10_bool_simplify_octal_bound_refuted.
-
-Theorem C10_bool_simplify_preserves_refuted :
-  ~ (forall en e, env_ok en -> well_typed e -> eval en (simplify_bool e) = eval en e).
-Proof. exact bool_simplify_preserves_refuted. Qed.
-Print Assumptions C10_bool_simplify_preserves_refuted.
-
-(* Under exactly the two guards the code lacks — removeIncDec never fires on float operands, and every
-   literal bound that foldRanges folds is one whose base-10 reading is its Go value — the suggestion
-   computes the same result and performs the same calls in the same order, for every environment
-   (all values of all variables, all behaviours of the opaque functions), NaN and infinities included. *)
-Theorem C10_bool_simplify_preserves_partial : forall en e,
-  env_ok en -> well_typed e -> no_float_incdec e = true -> decimal_bounds e = true ->
-  eval en (simplify_bool e) = eval en e.
-Proof. exact bool_simplify_preserves_partial. Qed.
-Print Assumptions C10_bool_simplify_preserves_partial.
+(* The full statement, for the checker as it stands in /repo (after the fixes 546af6d and 7e0e8ca):
+   for every environment (all values of all variables, NaN and infinities included, all behaviours of the
+   opaque functions) the suggestion computes the same result and performs the same calls in the same order. *)
+Theorem C10_bool_simplify_preserves : forall en e,
+  env_ok en -> well_typed e -> eval en (simplify_bool e) = eval en e.
+Proof. exact bool_simplify_preserves. Qed.
+Print Assumptions C10_bool_simplify_preserves.
 
 (* the same from any earlier history (the expression may be evaluated in the middle of a program) *)
-Theorem C10_bool_simplify_preserves_partial_any_history : forall en e,
-  env_ok en -> well_typed e -> no_float_incdec e = true -> decimal_bounds e = true ->
-  forall h, evalS en (simplify_bool e) h = evalS en e h.
-Proof. exact bool_simplify_preserves_partial_S. Qed.
-Print Assumptions C10_bool_simplify_preserves_partial_any_history.
+Theorem C10_bool_simplify_preserves_any_history : forall en e,
+  env_ok en -> well_typed e -> forall h, evalS en (simplify_bool e) h = evalS en e h.
+Proof. exact bool_simplify_preserves_S. Qed.
+Print Assumptions C10_bool_simplify_preserves_any_history.
 
-Theorem C10_bool_simplify_keeps_type : forall e t,
-  typeof e = Some t -> no_float_incdec e = true -> decimal_bounds e = true -> typeof (simplify_bool e) = Some t.
+Theorem C10_bool_simplify_keeps_type : forall e t, typeof e = Some t -> typeof (simplify_bool e) = Some t.
 Proof. exact bool_simplify_keeps_type. Qed.
 Print Assumptions C10_bool_simplify_keeps_type.
+
+(* ---- the checker before the fixes ([simplify_bool_prefix]): the statement was false, twice ---- *)
+Theorem C10_bool_simplify_prefix_incdec_float_refuted :
+  exists en e, env_ok en /\ typeof e = Some TBool /\
+    print_expr e = "x+1 > y" /\ print_expr (simplify_bool_prefix e) = "x >= y" /\
+    eval en e = Some (RVal (VBool true), []) /\ eval en (simplify_bool_prefix e) = Some (RVal (VBool false), []).
+Proof. exact prefix_remove_incdec_float_refuted. Qed.
+Print Assumptions C10_bool_simplify_prefix_incdec_float_refuted.
+
+Theorem C10_bool_simplify_prefix_octal_bound_refuted :
+  exists en e, env_ok en /\ typeof e = Some TBool /\
+    print_expr e = "x > 8 && x < 010" /\ print_expr (simplify_bool_prefix e) = "x == 9" /\
+    eval en e = Some (RVal (VBool false), []) /\ eval en (simplify_bool_prefix e) = Some (RVal (VBool true), []).
+Proof. exact prefix_fold_ranges_octal_refuted. Qed.
+Print Assumptions C10_bool_simplify_prefix_octal_bound_refuted.
+
+Theorem C10_bool_simplify_prefix_preserves_refuted :
+  ~ (forall en e, env_ok en -> well_typed e -> eval en (simplify_bool_prefix e) = eval en e).
+Proof. exact bool_simplify_prefix_preserves_refuted. Qed.
+Print Assumptions C10_bool_simplify_prefix_preserves_refuted.
+
+(* ... and held exactly under the two guards that the fixes added *)
+Theorem C10_bool_simplify_prefix_preserves_partial : forall en e,
+  env_ok en -> well_typed e -> no_float_incdec e = true -> decimal_bounds e = true ->
+  eval en (simplify_bool_prefix e) = eval en e.
+Proof. exact bool_simplify_prefix_preserves_partial. Qed.
+Print Assumptions C10_bool_simplify_prefix_preserves_partial.
+
+(* the current checker leaves both refuting expressions alone, and folds hexadecimal bounds correctly *)
+Example C10_fixed_witnesses_unchanged :
+  simplify_bool w_incdec = w_incdec /\ check_expr w_incdec = None /\
+  simplify_bool w_octal = w_octal /\ check_expr w_octal = None /\
+  print_expr (simplify_bool (EBinary OLAnd (EBinary OGt (EIdent "x" TInt) (ELit LInt "010" TInt)) (EBinary OLt (EIdent "x" TInt) (ELit LInt "0xA" TInt)))) = "x == 9".
+Proof. exact fixed_witnesses_unchanged. Qed.
 
 (* per-rule facts *)
 Theorem C10_invert_comparison_needs_float_guard :
@@ -79,6 +88,7 @@ Print Assumptions C10_fold_ranges_int_or.
 Example C10_guards_satisfiable :
   typeof w_all_rules = Some TBool /\ no_float_incdec w_all_rules = true /\ decimal_bounds w_all_rules = true /\
   print_expr w_all_rules = "!(x < 3) && x+1 > y || (x > 1 && x < 3 || ((x > y || x == y) || !!(!k) == !l))" /\
+  print_expr (simplify_bool_prefix w_all_rules) = "x >= 3 && x >= y || (x == 2 || ((x >= y) || k == l))" /\
   print_expr (simplify_bool w_all_rules) = "x >= 3 && x >= y || (x == 2 || ((x >= y) || k == l))".
 Proof. exact guards_satisfiable. Qed.
 
@@ -124,8 +134,77 @@ Theorem C10_string_concat_simplify_refuted :
 Proof. exact string_concat_simplify_refuted. Qed.
 Print Assumptions C10_string_concat_simplify_refuted.
 
+(* what a purity filter on $glue buys: with a glue that yields a value without events, independently of the
+   history (literal, variable), the rewrite is an equivalence for all operands $x, $y *)
+Theorem C10_string_concat_simplify_preserves_partial : forall en x y g,
+  env_ok en -> typeof (rw_lhs (rw_join_glue x y g)) = Some TString -> pure_total en g ->
+  preserves en (rw_join_glue x y g).
+Proof. exact string_concat_simplify_preserves_partial. Qed.
+Print Assumptions C10_string_concat_simplify_preserves_partial.
+
 Theorem C10_off_by1_suggestion_differs :
   exists en x, env_ok en /\ off_by1 (rw_lhs (rw_off_by1 x)) = true /\
     eval en (rw_lhs (rw_off_by1 x)) = Some (RPanic, []) /\ eval en (rw_rhs (rw_off_by1 x)) = Some (RVal (VInt 7), []).
 Proof. exact off_by1_suggestion_differs. Qed.
 Print Assumptions C10_off_by1_suggestion_differs.
+
+(* ---------------- more rule triples ---------------- *)
+Theorem C10_strings_compare_preserves : forall en, env_ok en -> forall s1 s2,
+  typeof s1 = Some TString -> typeof s2 = Some TString ->
+  preserves en (rw_compare OEq lit0 OEq s1 s2) /\ preserves en (rw_compare OEq litm1 OLt s1 s2) /\
+  preserves en (rw_compare OLt lit0 OLt s1 s2) /\ preserves en (rw_compare OEq lit1 OGt s1 s2) /\
+  preserves en (rw_compare OGt lit0 OGt s1 s2).
+Proof. exact strings_compare_preserves. Qed.
+Print Assumptions C10_strings_compare_preserves.
+
+(* yodaStyleExpr: `lit == x` => `x == lit`, `lit != x` => `x != lit`, for every operand type, NaN included *)
+Theorem C10_yoda_style_preserves : forall en o k s t x,
+  (o = OEq \/ o = ONe) -> typeof (ELit k s t) <> None -> preserves en (rw_yoda o (ELit k s t) x).
+Proof. exact yoda_preserves. Qed.
+Print Assumptions C10_yoda_style_preserves.
+
+(* ---------------- statement-level rules (Model_Stmt) ---------------- *)
+From GC Require Import Model_Stmt Proofs_Stmt.
+
+(* assignOp: `x = x op y` => `x op= y` under the rule's filter (x without opaque calls), y arbitrary *)
+Theorem C10_assign_op_preserves : forall en l o e h,
+  env_ok en -> is_arith o = true -> lval_pure l = true ->
+  exec en (assign_op_lhs l o e) h = exec en (assign_op_rhs l o e) h.
+Proof. exact assign_op_preserves. Qed.
+Print Assumptions C10_assign_op_preserves.
+
+Theorem C10_assign_incdec_preserves : forall en l (inc : bool) h,
+  env_ok en -> lval_pure l = true ->
+  (match l with LVar _ t => t = TInt | LIdx _ _ => True end) ->
+  exec en (assign_op_lhs l (if inc then OAdd else OSub) (ELit LInt "1" TInt)) h = exec en (SIncDec l inc) h.
+Proof. exact assign_incdec_preserves. Qed.
+Print Assumptions C10_assign_incdec_preserves.
+
+(* switchTrue: a tag that always evaluates to true without events can be dropped *)
+Theorem C10_switch_true_preserves : forall en t cases dflt h,
+  (forall h', evalS en t h' = Some (RVal (VBool true), h')) ->
+  exec en (switch_true_lhs t cases dflt) h = exec en (switch_true_rhs cases dflt) h.
+Proof. exact switch_true_preserves. Qed.
+Print Assumptions C10_switch_true_preserves.
+
+(* valSwap is not an equivalence: with side effects in the operands, and — even for pure operands — when
+   the index of one operand mentions the other (`tmp := b; b = xs[b]; xs[b] = tmp`) *)
+Theorem C10_val_swap_impure_refuted :
+  exists en x y, env_ok en /\
+    observe (exec en (val_swap_lhs "tmp" TInt x y) []) <> observe (exec en (val_swap_rhs x y) []).
+Proof. exact val_swap_impure_refuted. Qed.
+Print Assumptions C10_val_swap_impure_refuted.
+
+Theorem C10_val_swap_index_dependence_refuted :
+  exists en x y, env_ok en /\ lval_pure x = true /\ lval_pure y = true /\
+    observe (exec en (val_swap_lhs "tmp" TInt x y) []) <> observe (exec en (val_swap_rhs x y) []).
+Proof. exact val_swap_index_dependence_refuted. Qed.
+Print Assumptions C10_val_swap_index_dependence_refuted.
+
+(* newDeref *)
+Theorem C10_new_deref_zero_literal : forall en t e h,
+  zero_lit t = Some e ->
+  (exists k s, e = ELit k s t /\ zero_value_text "T" (match t with TInt => ZInt | TFloat => ZFloat | _ => ZString end) true = Some s) /\
+  exists v, evalS en e h = Some (RVal v, h) /\ cmp_val OEq v (default_value t) = Some true.
+Proof. exact new_deref_zero_literal. Qed.
+Print Assumptions C10_new_deref_zero_literal.
